@@ -5,6 +5,9 @@ type rules.  The statement per base type is `Post`.
 -/
 import MsVerif.Lemmas.InterpBasic
 import MsVerif.Lemmas.InterpTyping
+import MsVerif.Lemmas.TypeSoundArgsThm
+import MsVerif.Lemmas.SatNum
+import MsVerif.Lemmas.SatExecN
 
 namespace MsVerif.InterpSound
 open MsVerif Script Interp
@@ -28,8 +31,11 @@ def Post (env : Env) (ke : KeyEnv) (ctx : Ctx) (ms : Ms) (b : Base) (u : Bool) (
   | .K => ∃ r c0, a' = r :: absS c0 ∧ ∀ rest alt ops, ∃ pk sg ops',
       frag env ke ctx ms ⟨c ++ rest, alt, ops⟩ = .ok ⟨pk :: sg :: (c0 ++ rest), alt, ops'⟩ ∧ KRes env r pk sg
   | .W => ∃ r c0, a' = r :: absS c0 ∧ ∀ t rest alt ops, ∃ v ops',
-      frag env ke ctx ms ⟨t :: (c ++ rest), alt, ops⟩ = .ok ⟨t :: v :: (c0 ++ rest), alt, ops'⟩ ∧ Res env u r v
+      (frag env ke ctx ms ⟨t :: (c ++ rest), alt, ops⟩ = .ok ⟨t :: v :: (c0 ++ rest), alt, ops'⟩
+        ∨ frag env ke ctx ms ⟨t :: (c ++ rest), alt, ops⟩ = .ok ⟨v :: t :: (c0 ++ rest), alt, ops'⟩)
+      ∧ Res env u r v
 
+mutual
 /-- the fragments covered by the proof, with their side conditions: keys of the script are
 well-formed for the context, lock values round-trip through the script-number codec -/
 def Sup (env : Env) (ke : KeyEnv) : Ms → Prop
@@ -41,12 +47,25 @@ def Sup (env : Env) (ke : KeyEnv) : Ms → Prop
   | .alt x | .check x | .verify x | .zeroNotEqual x => Sup env ke x
   | .andV l r | .andB l r | .orB l r | .orC l r | .orD l r | .orI l r => Sup env ke l ∧ Sup env ke r
   | .andOr a b c => Sup env ke a ∧ Sup env ke b ∧ Sup env ke c
-  | .nonZero _ | .swap _ | .dupIf _ | .thresh _ _ | .multi _ _ | .sortedMulti _ _ | .multiA _ _
+  | .swap x | .dupIf x => Sup env ke x ∧ TypeSound.wf x = true
+  | .thresh k xs => 1 ≤ k ∧ k < 2 ^ 31 ∧ xs.length < 2 ^ 31 ∧ SupList env ke xs
+  | .multiA k ks =>
+    env.flags.tapscript = true ∧ k < 2 ^ 31 ∧ ks.length < 2 ^ 31 ∧ ks ≠ []
+      ∧ ∀ key ∈ ks, pubkeyOk env (ke.ser key) = true
+  | .multi k ks =>
+    env.flags.tapscript = false ∧ 1 ≤ k ∧ k ≤ ks.length ∧ ks.length ≤ 20
+      ∧ ∀ key ∈ ks, pubkeyOk env (ke.ser key) = true
+  | .nonZero _ | .sortedMulti _ _
   | .sortedMultiA _ _ => False
+def SupList (env : Env) (ke : KeyEnv) : MsList → Prop
+  | .nil => True
+  | .cons x xs => Sup env ke x ∧ SupList env ke xs
+end
 
 variable {env : Env} {ke : KeyEnv} {ie : IEnv} {ctx : Ctx}
 
 @[simp] theorem bindOk {α β : Type} (a : α) (f : α → Except Err β) : (Except.ok a >>= f) = f a := rfl
+theorem pureOk {α : Type} (a : α) : (pure a : Except Err α) = .ok a := rfl
 @[simp] theorem bindErr {α β : Type} (e : Err) (f : α → Except Err β) :
     ((Except.error e : Except Err α) >>= f) = .error e := rfl
 
@@ -321,7 +340,7 @@ theorem sound_alt (h : NoLimits env) {x : Ms} {u : Bool} {c : List Bytes} {a' : 
   obtain ⟨r, c0, ha, F⟩ := P
   refine ⟨r, c0, ha, fun t rest alt ops => ?_⟩
   obtain ⟨v, o, hf, hr⟩ := F rest (t :: alt) (ops + 1)
-  exact ⟨v, o + 1, by simp [frag, opc_nl h, execOpc, hf, pushElem_nl h], hr⟩
+  exact ⟨v, o + 1, Or.inl (by simp [frag, opc_nl h, execOpc, hf, pushElem_nl h]), hr⟩
 
 theorem sound_check (h : NoLimits env) {x : Ms} {u : Bool} {c : List Bytes} {a' : AStack}
     (P : Post env ke ctx x .K u c a') : Post env ke ctx (.check x) .B true c a' := by
@@ -384,6 +403,139 @@ theorem sound_zeroNotEqual (h : NoLimits env) {x : Ms} {u : Bool} {c : List Byte
     obtain ⟨v, o, hf, hr⟩ := F [] [] 0
     rcases hr.bool with e | e <;> simp at e
 
+theorem condPop_nil' (notif : Bool) (st alt : List Bytes) (ops : Nat) :
+    condPop env notif ⟨[] :: st, alt, ops⟩ = .ok (notif, ⟨st, alt, ops⟩) := by
+  cases notif <;> simp [condPop, castToBool]
+
+theorem condPop_one' (notif : Bool) (st alt : List Bytes) (ops : Nat) :
+    condPop env notif ⟨[1] :: st, alt, ops⟩ = .ok (!notif, ⟨st, alt, ops⟩) := by
+  cases notif <;> simp [condPop, castToBool]
+
+/-! ### `s:` and `d:` — exact argument counts of the child (C06, `args_cons` + `framed_frag`) -/
+
+/-- a fragment that consumes exactly `i` elements and is sound on `pre ++ c1` (with `pre` of that
+length) is sound "in place": on `pre ++ s` for ANY `s` it leaves `s` untouched -/
+theorem frag_in_place {x : Ms} {i o : Nat} (hl : NoLimits env)
+    (hc : TypeSound.Cons (frag env ke ctx x) i o) {pre c1 out0 : List Bytes} (hpre : pre.length = i)
+    {alt : List Bytes} {ops ops' : Nat} (rest : List Bytes)
+    (hf : frag env ke ctx x ⟨(pre ++ c1) ++ rest, alt, ops⟩ = .ok ⟨out0 ++ rest, alt, ops'⟩) :
+    ∃ out, out.length = o ∧ out0 = out ++ c1 ∧
+      ∀ s, frag env ke ctx x ⟨pre ++ s, alt, ops⟩ = .ok ⟨out ++ s, alt, ops'⟩ := by
+  obtain ⟨hn, hok⟩ := hc pre [] alt ops hpre
+  have fr : ∀ s, frag env ke ctx x ⟨pre ++ s, alt, ops⟩
+      = TypeSound.lift s (frag env ke ctx x ⟨pre, alt, ops⟩) := by
+    intro s
+    have := TypeSound.framed_frag hl.st ke ctx x ⟨pre, alt, ops⟩ s (by simpa using hn)
+    simpa [TypeSound.app] using this
+  have h1 := fr (c1 ++ rest)
+  rw [← List.append_assoc, hf] at h1
+  cases hx : frag env ke ctx x ⟨pre, alt, ops⟩ with
+  | error e => rw [hx] at h1; simp at h1
+  | ok c' =>
+    rw [hx] at h1
+    simp [TypeSound.app] at h1
+    obtain ⟨out, ho, hs⟩ := hok c' (by simpa using hx)
+    simp at hs
+    obtain ⟨e1, e2, e3⟩ : out0 ++ rest = c'.stack ++ (c1 ++ rest) ∧ alt = c'.alt ∧ ops' = c'.ops := by
+      have := h1
+      cases c'
+      simp at this ⊢
+      exact ⟨this.1, this.2.1, this.2.2⟩
+    refine ⟨out, ho, ?_, fun s => ?_⟩
+    · rw [hs, ← List.append_assoc] at e1
+      exact List.append_cancel_right e1
+    · rw [fr s, hx]
+      cases c'
+      simp [TypeSound.app] at hs e2 e3 ⊢
+      exact ⟨hs, e2.symm, e3.symm⟩
+
+theorem sound_swap (h : NoLimits env) {x : Ms} {u : Bool} {c : List Bytes} {a' : AStack}
+    (hc : TypeSound.Cons (frag env ke ctx x) 1 1)
+    (P : Post env ke ctx x .B u c a') : Post env ke ctx (.swap x) .W u c a' := by
+  obtain ⟨r, c0, ha, F⟩ := P
+  cases c with
+  | nil =>
+    -- an `o` fragment cannot succeed on the empty stack
+    exfalso
+    obtain ⟨v, o, hf, _⟩ := F [] [] 0
+    obtain ⟨hn, hok⟩ := hc [[]] [] [] 0 rfl
+    have := TypeSound.framed_frag h.st ke ctx x ⟨[], [], 0⟩ [[]] (by
+      simp at hf; rw [hf]; exact TypeSound.NoUF_ok _)
+    simp [TypeSound.app] at this hf
+    rw [hf] at this
+    simp [TypeSound.app] at this
+    obtain ⟨out, ho, hs⟩ := hok _ this
+    simp at hs
+    have : (v :: (c0 ++ [[]])).length = out.length := by rw [hs]
+    simp at this; omega
+  | cons e c1 =>
+    obtain ⟨v0, o0, hf0, _⟩ := F [] [] 0
+    obtain ⟨out, ho, hout, _⟩ := frag_in_place (pre := [e]) (c1 := c1) (out0 := v0 :: c0) h hc rfl []
+      (by simpa using hf0)
+    obtain ⟨w, hw⟩ := TypeSound.len1 ho
+    subst hw
+    have hc0 : c0 = c1 := by simp at hout; exact hout.2
+    subst hc0
+    refine ⟨r, c0, ha, fun t rest alt ops => ?_⟩
+    obtain ⟨v, o, hf, hr⟩ := F rest alt (ops + 1)
+    obtain ⟨out', ho', hout', G⟩ := frag_in_place (pre := [e]) (c1 := c0) (out0 := v :: c0) h hc rfl rest
+      (by simpa using hf)
+    obtain ⟨w', hw'⟩ := TypeSound.len1 ho'
+    subst hw'
+    have hv : v = w' := by simp at hout'; exact hout'
+    subst hv
+    refine ⟨v, o, Or.inr ?_, hr⟩
+    have := G (t :: (c0 ++ rest))
+    simp [frag, opc_nl h, execOpc]
+    simpa using this
+
+theorem sound_dupIf (h : NoLimits env) {x : Ms} {c : List Bytes} {a' : AStack} {cs : List Constraint}
+    (hc : TypeSound.Cons (frag env ke ctx x) 0 0)
+    (hi : interp ke ie (.dupIf x) (absS c) = .ok (a', cs))
+    (Px : ∀ c1 a2 cs2, interp ke ie x (absS c1) = .ok (a2, cs2) → Post env ke ctx x .V false c1 a2) :
+    Post env ke ctx (.dupIf x) .B false c a' := by
+  cases c with
+  | nil => simp [interp] at hi
+  | cons e c1 =>
+    simp only [interp, absS_cons] at hi
+    cases he : Elem.ofBytes e with
+    | push b => simp [he] at hi
+    | dissat =>
+      have := ofBytes_dissat he
+      subst this
+      simp [he] at hi
+      refine ⟨.dissat, c1, hi.1.symm, fun rest alt ops => ⟨[], ops + 1 + 1 + codeCount (encode ke ctx x) + 1, ?_,
+        Res.ofBool env false false⟩⟩
+      simp [frag, opc_nl h, execOpc, pushElem_nl h, cnd_nl h, condPop_nil', skipCount_nl h, countOp_nl h]
+    | sat =>
+      have := ofBytes_sat he
+      subst this
+      simp only [he] at hi
+      cases hx : interp ke ie x (absS c1) with
+      | error er => simp [hx] at hi
+      | ok p =>
+        obtain ⟨a2, cs2⟩ := p
+        simp [hx] at hi
+        obtain ⟨c0, ha2, F⟩ := Px c1 a2 cs2 hx
+        obtain ⟨o0, hf0⟩ := F [] [] 0
+        obtain ⟨out, ho, hout, _⟩ := frag_in_place (pre := []) (c1 := c1) (out0 := c0) h hc rfl []
+          (by simpa using hf0)
+        have hnil : out = [] := List.eq_nil_of_length_eq_zero ho
+        subst hnil
+        have hc0 : c0 = c1 := by simpa using hout
+        subst hc0
+        subst ha2
+        refine ⟨.sat, c0, hi.1.symm, fun rest alt ops => ?_⟩
+        obtain ⟨o, hf⟩ := F rest alt (ops + 1 + 1)
+        obtain ⟨out', ho', _, G⟩ := frag_in_place (pre := []) (c1 := c0) (out0 := c0) h hc rfl rest
+          (by simpa using hf)
+        have hnil' : out' = [] := List.eq_nil_of_length_eq_zero ho'
+        subst hnil'
+        have := G ([1] :: (c0 ++ rest))
+        simp at this
+        refine ⟨[1], o + 1, ?_, (Res.ofBool env true true).mono (fun x => by simp at x)⟩
+        simp [frag, opc_nl h, execOpc, pushElem_nl h, cnd_nl h, condPop_one', this, countOp_nl h]
+
 /-! ### combinators -/
 
 /-- `and_v(l, r)`: `l` leaves nothing, then `r` -/
@@ -420,7 +572,9 @@ theorem sound_andB (h : NoLimits env) {l r : Ms} {ul ur : Bool} {c : List Bytes}
     obtain ⟨zl, hzl, hzl'⟩ := hr1.num
     obtain ⟨zr, hzr, hzr'⟩ := hr2.num
     refine ⟨boolBytes (zl != 0 && zr != 0), o2 + 1, ?_, ?_⟩
-    · simp [frag, hf1, hf2, opc_nl h, execOpc, hzl, hzr, pushElem_nl h]
+    · rcases hf2 with hf2 | hf2
+      · simp [frag, hf1, hf2, opc_nl h, execOpc, hzl, hzr, pushElem_nl h]
+      · simp [frag, hf1, hf2, opc_nl h, execOpc, hzl, hzr, pushElem_nl h, Bool.and_comm]
     · have e : (zl != 0 && zr != 0) = (rr == .sat && rl == .sat) := by
         rcases hbl with e1 | e1 <;> rcases hr2.bool with e2 | e2 <;> subst e1 <;> subst e2 <;>
           simp_all
@@ -452,7 +606,9 @@ theorem sound_orB (h : NoLimits env) {l r : Ms} {ul ur : Bool} {c : List Bytes} 
     obtain ⟨zl, hzl, hzl'⟩ := hr1.num
     obtain ⟨zr, hzr, hzr'⟩ := hr2.num
     refine ⟨boolBytes (zl != 0 || zr != 0), o2 + 1, ?_, ?_⟩
-    · simp [frag, hf1, hf2, opc_nl h, execOpc, hzl, hzr, pushElem_nl h]
+    · rcases hf2 with hf2 | hf2
+      · simp [frag, hf1, hf2, opc_nl h, execOpc, hzl, hzr, pushElem_nl h]
+      · simp [frag, hf1, hf2, opc_nl h, execOpc, hzl, hzr, pushElem_nl h, Bool.or_comm]
     · have e : (if rr == .dissat && rl == .dissat then Elem.dissat else Elem.sat)
           = (if (zl != 0 || zr != 0) then Elem.sat else Elem.dissat) := by
         rcases hbl with e1 | e1 <;> rcases hr2.bool with e2 | e2 <;> subst e1 <;> subst e2 <;>
@@ -606,8 +762,528 @@ theorem sound_andOr (h : NoLimits env) {x y z : Ms} {b : Base} {u : Bool} {c : L
       refine ⟨o1 + 1, fun s hs => ⟨s.ops + 1 + codeCount (encode ke ctx y) + 1, ?_⟩⟩
       simp [frag, hf1, cnd_nl h, condPop_nil, hs, skipCount_nl h, countOp_nl h]
 
+/-! ### thresh: the running sum -/
+
+/-- the number a boolean result contributes to the sum -/
+def bitOf (r : Elem) : Nat := if r = .sat then 1 else 0
+
+theorem bitOf_le (r : Elem) : bitOf r ≤ 1 := by unfold bitOf; split <;> omega
+
+theorem num4_enc {m : Nat} (hm : m < 2 ^ 31) : num4 env (numEncode (m : Int)) = .ok (m : Int) := by
+  have := (SatSpec.numOk_of_lt m (by omega)).1 env.flags.minimalNum
+  simp [num4, this]
+
+theorem numEncode_inj' {a b : Nat} (ha : a < 2 ^ 31) (hb : b < 2 ^ 31)
+    (hh : numEncode (a : Int) = numEncode (b : Int)) : a = b := by
+  have h1 := (SatSpec.numOk_of_lt a (by omega)).1 false
+  have h2 := (SatSpec.numOk_of_lt b (by omega)).1 false
+  rw [hh, h2] at h1
+  have := Option.some.inj h1
+  omega
+
+theorem Res.enc {r : Elem} {v : Bytes} (hr : Res env true r v) : v = numEncode ((bitOf r : Nat) : Int) := by
+  rcases hr.minimal with ⟨e1, e2⟩ | ⟨e1, e2⟩ <;> subst e1 <;> subst e2 <;> decide
+
+theorem lockVal_eq (n : Nat) : lockVal n = numEncode (n : Int) := by
+  unfold lockVal
+  split
+  · rename_i hn
+    have : ∀ n, n ≤ 16 → (if n = 0 then ([] : Bytes) else [UInt8.ofNat n]) = numEncode (n : Int) := by decide
+    exact this n hn
+  · rfl
+
+theorem add_exec (h : NoLimits env) {a b : Nat} (ha : a < 2 ^ 31) (hb : b < 2 ^ 31)
+    (st alt : List Bytes) (ops : Nat) :
+    opc env .add ⟨numEncode (a : Int) :: numEncode (b : Int) :: st, alt, ops⟩
+      = .ok ⟨numEncode ((b + a : Nat) : Int) :: st, alt, ops + 1⟩ := by
+  simp [opc_nl h, execOpc, num4_enc ha, num4_enc hb, pushElem_nl h]
+
+theorem interpRest_cons_inv {x : Ms} {xs : MsList} {nS : Nat} {rPrev : Elem} {st st' : AStack} {nS' : Nat}
+    {cs : List Constraint} (hrp : rPrev = .sat ∨ rPrev = .dissat)
+    (hi : interpRest ke ie (.cons x xs) nS (rPrev :: st) = .ok (st', nS', cs)) :
+    ∃ st1 cs1 cs2, interp ke ie x st = .ok (st1, cs1)
+      ∧ interpRest ke ie xs (nS + bitOf rPrev) st1 = .ok (st', nS', cs2) := by
+  rcases hrp with e | e <;> subst e
+  · simp only [interpRest] at hi
+    cases hx : interp ke ie x st with
+    | error er => simp [hx] at hi
+    | ok p =>
+      obtain ⟨st1, cs1⟩ := p
+      cases hr : interpRest ke ie xs (nS + 1) st1 with
+      | error er => simp [hx, hr] at hi
+      | ok q =>
+        obtain ⟨a2, n2, cs2⟩ := q
+        simp [hx, hr] at hi
+        exact ⟨st1, cs1, cs2, rfl, by simp [bitOf, hr, hi.1, hi.2.1]⟩
+  · simp only [interpRest] at hi
+    cases hx : interp ke ie x st with
+    | error er => simp [hx] at hi
+    | ok p =>
+      obtain ⟨st1, cs1⟩ := p
+      cases hr : interpRest ke ie xs nS st1 with
+      | error er => simp [hx, hr] at hi
+      | ok q =>
+        obtain ⟨a2, n2, cs2⟩ := q
+        simp [hx, hr] at hi
+        exact ⟨st1, cs1, cs2, rfl, by simp [bitOf, hr, hi.1, hi.2.1]⟩
+
+/-- the last two elements of `thresh`: `<k> EQUAL` on the sum -/
+theorem thresh_tail (h : NoLimits env) {k m : Nat} (hk : k < 2 ^ 31) (hm : m < 2 ^ 31)
+    (st alt : List Bytes) (ops : Nat) :
+    seqOps env [pushInt k, .code .equal] ⟨numEncode (m : Int) :: st, alt, ops⟩
+      = .ok ⟨boolBytes (decide (m = k)) :: st, alt, ops + 1⟩ := by
+  simp only [seqOps, List.foldlM_cons, List.foldlM_nil, pshOp_pushInt h, bindOk, lockVal_eq]
+  have e : (numEncode (k : Int) == numEncode (m : Int)) = decide (m = k) := by
+    by_cases hmk : m = k
+    · subst hmk; simp
+    · have : numEncode (k : Int) ≠ numEncode (m : Int) := fun hh => hmk (numEncode_inj' hk hm hh).symm
+      simp [hmk, this]
+  simp [pshOp, opc_nl h, execOpc, pushElem_nl h, e]
+
+/-! ### multi: CHECKMULTISIG's key walk
+
+The interpreter tries each signature against the keys from the last to the first and skips a key
+when ITS oracle rejects; Script's `multisigLoop` does the same with `env.sigOk`, which may accept
+more (the agreement is one-directional).  Matching a signature EARLIER never hurts (`mloop_cons`),
+so Script still finds all `k` matches. -/
+
+/-- `multisigLoop` as a total Boolean function (all keys well-formed) -/
+def mloop (env : Env) : List Bytes → List Bytes → Bool
+  | [], _ => true
+  | _ :: _, [] => false
+  | s :: ss, key :: keys =>
+    if ss.length + 1 > keys.length + 1 then false
+    else if !s.isEmpty && env.sigOk key s then mloop env ss keys else mloop env (s :: ss) keys
+termination_by s k => s.length + k.length
+
+theorem multisigLoop_eq_mloop : ∀ (sigs keys : List Bytes), (∀ key ∈ keys, pubkeyOk env key = true) →
+    multisigLoop env sigs keys = .ok (mloop env sigs keys)
+  | [], keys, _ => by unfold multisigLoop mloop; rfl
+  | s :: ss, [], _ => by unfold multisigLoop mloop; rfl
+  | s :: ss, key :: keys, hk => by
+    have hk' : ∀ q ∈ keys, pubkeyOk env q = true := fun q hq => hk q (by simp [hq])
+    have h0 : pubkeyOk env key = true := hk key (by simp)
+    unfold multisigLoop mloop
+    by_cases hl : ss.length + 1 > keys.length + 1
+    · simp [hl]
+    · simp only [hl, if_false, h0, Bool.not_true, Bool.false_eq_true]
+      by_cases hm : (!s.isEmpty && env.sigOk key s) = true
+      · simp only [hm, if_true]; exact multisigLoop_eq_mloop ss keys hk'
+      · simp only [hm, if_false]; exact multisigLoop_eq_mloop (s :: ss) keys hk'
+termination_by s k => s.length + k.length
+
+theorem mloop_length : ∀ (keys sigs : List Bytes), mloop env sigs keys = true → sigs.length ≤ keys.length
+  | _, [], _ => by simp
+  | [], s :: ss, h => by unfold mloop at h; simp at h
+  | key :: keys, s :: ss, h => by
+    unfold mloop at h
+    by_cases hl : ss.length + 1 > keys.length + 1
+    · simp [hl] at h
+    · simp only [List.length_cons]; omega
+
+/-- (A) one more key in front never hurts; (B) neither does one signature less -/
+theorem mloop_mono : ∀ (keys : List Bytes),
+    (∀ sigs key, mloop env sigs keys = true → mloop env sigs (key :: keys) = true)
+    ∧ (∀ s ss, mloop env (s :: ss) keys = true → mloop env ss keys = true)
+  | [] => by
+    refine ⟨fun sigs key h => ?_, fun s ss h => ?_⟩
+    · cases sigs with
+      | nil => unfold mloop; rfl
+      | cons s ss => unfold mloop at h; simp at h
+    · unfold mloop at h; simp at h
+  | key0 :: ks => by
+    obtain ⟨A, B⟩ := mloop_mono ks
+    have B' : ∀ s ss, mloop env (s :: ss) (key0 :: ks) = true → mloop env ss (key0 :: ks) = true := by
+      intro s ss h
+      unfold mloop at h
+      by_cases hl : ss.length + 1 > ks.length + 1
+      · simp [hl] at h
+      · simp only [hl, if_false] at h
+        by_cases hm : (!s.isEmpty && env.sigOk key0 s) = true
+        · simp only [hm, if_true] at h; exact A ss key0 h
+        · simp only [hm, if_false] at h; exact A ss key0 (B s ss h)
+    refine ⟨fun sigs key h => ?_, B'⟩
+    cases sigs with
+    | nil => unfold mloop; rfl
+    | cons s ss =>
+      have hlen := mloop_length (key0 :: ks) (s :: ss) h
+      simp only [List.length_cons] at hlen
+      unfold mloop
+      have hl : ¬ (ss.length + 1 > (key0 :: ks).length + 1) := by simp only [List.length_cons]; omega
+      simp only [hl, if_false]
+      by_cases hm : (!s.isEmpty && env.sigOk key s) = true
+      · simp only [hm, if_true]; exact B' s ss h
+      · simp only [hm, if_false]; exact h
+
+theorem mloop_cons {sigs keys : List Bytes} (key : Bytes) (h : mloop env sigs keys = true) :
+    mloop env sigs (key :: keys) = true := (mloop_mono keys).1 sigs key h
+
+/-- the interpreter's walk finds `k - nSat` signatures on top of an empty dummy, and Script's walk
+over the same keys succeeds on them -/
+theorem multiLoop_sound (ag : Agree env ie) {k : Nat} : ∀ (keysRev : List Bytes) (nSat : Nat) (c : List Bytes)
+    (a' : AStack) (cs : List Constraint), nSat ≤ k →
+    Interp.multiLoop ie k keysRev nSat (absS c) = .ok (a', cs) →
+    ∃ sigs c0, c = sigs ++ [] :: c0 ∧ sigs.length = k - nSat ∧ a' = .sat :: absS c0
+      ∧ mloop env sigs keysRev = true
+  | keysRev, nSat, c, a', cs, hle, hi => by
+    unfold Interp.multiLoop at hi
+    by_cases hk : (nSat == k) = true
+    · simp only [hk, if_true] at hi
+      cases c with
+      | nil => simp at hi
+      | cons e c0 =>
+        simp only [absS_cons] at hi
+        cases he : Elem.ofBytes e with
+        | sat => simp [he] at hi
+        | push x => simp [he] at hi
+        | dissat =>
+          have := ofBytes_dissat he
+          subst this
+          simp [he] at hi
+          have : nSat = k := by simpa using hk
+          exact ⟨[], c0, by simp, by simp [this], hi.1.symm, by unfold mloop; rfl⟩
+    · simp only [hk] at hi
+      have hne : nSat ≠ k := by simpa using hk
+      cases keysRev with
+      | nil => simp at hi
+      | cons pk rest =>
+        simp only at hi
+        cases c with
+        | nil => simp [evaluateMulti] at hi
+        | cons v c1 =>
+          simp only [absS_cons] at hi
+          cases he : Elem.ofBytes v with
+          | sat => simp [he, evaluateMulti] at hi
+          | dissat => simp [he, evaluateMulti] at hi
+          | push x =>
+            obtain ⟨e1, e2, _⟩ := ofBytes_push he
+            subst e1
+            simp only [he, evaluateMulti] at hi
+            by_cases hv : ie.verifySig pk v = true
+            · simp only [hv, if_true] at hi
+              cases hr : Interp.multiLoop ie k rest (nSat + 1) (absS c1) with
+              | error er => simp [hr] at hi
+              | ok q =>
+                obtain ⟨a2, cs2⟩ := q
+                simp [hr] at hi
+                obtain ⟨sigs, c0, hc, hl, ha, hm⟩ := multiLoop_sound ag rest (nSat + 1) c1 a2 cs2 (by omega) hr
+                refine ⟨v :: sigs, c0, by simp [hc], by simp [hl]; omega, by rw [← hi.1]; exact ha, ?_⟩
+                have hlen := mloop_length rest sigs hm
+                unfold mloop
+                have : ¬ (sigs.length + 1 > rest.length + 1) := by omega
+                have hne' : v.isEmpty = false := by cases v <;> simp_all
+                simp [this, hne', (ag.sig pk v hv).1, hm]
+            · simp only [hv] at hi
+              have hi' : Interp.multiLoop ie k rest nSat (absS (v :: c1)) = .ok (a', cs) := by
+                simpa [he] using hi
+              obtain ⟨sigs, c0, hc, hl, ha, hm⟩ := multiLoop_sound ag rest nSat (v :: c1) a' cs hle hi'
+              exact ⟨sigs, c0, hc, hl, ha, mloop_cons pk hm⟩
+termination_by keysRev => keysRev.length
+
+theorem mloop_empties : ∀ (keys : List Bytes) (j : Nat), mloop env (List.replicate (j + 1) []) keys = false
+  | [], j => by simp [List.replicate_succ]; unfold mloop; rfl
+  | key :: keys, j => by
+    rw [List.replicate_succ]
+    unfold mloop
+    by_cases hl : (List.replicate j ([] : Bytes)).length + 1 > keys.length + 1
+    · rw [if_pos hl]
+    · rw [if_neg hl]
+      simp only [List.isEmpty_nil, Bool.not_true, Bool.false_and, Bool.false_eq_true, if_false]
+      have := mloop_empties keys j
+      rw [List.replicate_succ] at this
+      exact this
+
+theorem absS_all_dissat : ∀ (j : Nat) (c : List Bytes), j ≤ c.length →
+    ((absS c).take j).all (· == Elem.dissat) = true → ∃ c0, c = List.replicate j [] ++ c0
+  | 0, c, _, _ => ⟨c, by simp⟩
+  | j + 1, [], hl, _ => by simp at hl
+  | j + 1, e :: c, hl, h => by
+    simp only [absS_cons, List.take_succ_cons, List.all_cons, Bool.and_eq_true, beq_iff_eq] at h
+    have he := ofBytes_dissat h.1
+    subst he
+    obtain ⟨c0, hc0⟩ := absS_all_dissat j c (by simpa using hl) h.2
+    exact ⟨c0, by rw [hc0, List.replicate_succ]; simp⟩
+
+theorem sound_multi (h : NoLimits env) (ag : Agree env ie) {k : Nat} {ks : List Key}
+    (hs : Sup env ke (.multi k ks)) {c : List Bytes} {a' : AStack} {cs : List Constraint}
+    (hi : interp ke ie (.multi k ks) (absS c) = .ok (a', cs)) :
+    Post env ke ctx (.multi k ks) .B true c a' := by
+  obtain ⟨htap, hk1, hkn, hn, hkeys⟩ := hs
+  have hE : SatSpec.EnvOk env .segwitv0 := ⟨h.op, h.st, by simp [htap]⟩
+  have hkeys' : ∀ key ∈ (ks.map ke.ser).reverse, pubkeyOk env key = true := by
+    intro key hkey
+    simp only [List.mem_reverse, List.mem_map] at hkey
+    obtain ⟨q, hq, rfl⟩ := hkey
+    exact hkeys q hq
+  have hctx : ∀ c, frag env ke ctx (.multi k ks) c = frag env ke .segwitv0 (.multi k ks) c := by
+    intro c; simp [frag]
+  simp only [interp, evalMulti] at hi
+  split at hi
+  · simp at hi
+  · rename_i hlen
+    have hlen' : k + 1 ≤ c.length := by simp [absS] at hlen; omega
+    cases hc : absS c with
+    | nil => rw [hc] at hi; simp at hi
+    | cons top st0 =>
+      by_cases htop : top = .dissat
+      · subst htop
+        rw [hc] at hi
+        simp only at hi
+        split at hi
+        · rename_i hall
+          simp at hi
+          rw [← hc] at hall
+          obtain ⟨c0, hc0⟩ := absS_all_dissat (k + 1) c hlen' hall
+          subst hc0
+          have hdrop : (Elem.dissat :: st0).drop (k + 1) = absS c0 := by
+            rw [← hc]; simp [absS]
+          refine ⟨.dissat, c0, by rw [← hi.1, ← hdrop]; simp, fun rest alt ops => ?_⟩
+          have hrun := SatSpec.frag_multi (ke := ke) (ctx := .segwitv0) hE htap k ks hn hkn (List.replicate k [])
+            (by simp) (c0 ++ rest) (b := false)
+            (by
+              rw [multisigLoop_eq_mloop _ _ hkeys']
+              obtain ⟨j, hj⟩ : ∃ j, k = j + 1 := ⟨k - 1, by omega⟩
+              subst hj
+              rw [mloop_empties])
+            (Or.inr (by simp))
+          obtain ⟨c', hf, hst, halt⟩ := hrun alt ops
+          refine ⟨[], c'.ops, ?_, Res.ofBool env true false⟩
+          rw [hctx]
+          have e : List.replicate (k + 1) ([] : Bytes) ++ c0 ++ rest = List.replicate k [] ++ [] :: (c0 ++ rest) := by
+            rw [List.replicate_succ']; simp
+          rw [e, hf]
+          cases c'
+          simp at hst halt
+          simp [hst, halt, boolBytes]
+        · simp at hi
+      · rw [hc] at hi
+        have hi' : Interp.multiLoop ie k (ks.map ke.ser).reverse 0 (absS c) = .ok (a', cs) := by
+          rw [hc]
+          cases top with
+          | dissat => exact absurd rfl htop
+          | sat => simpa using hi
+          | push x => simpa using hi
+        obtain ⟨sigs, c0, hcs, hl, ha, hm⟩ := multiLoop_sound ag _ 0 c a' cs (by omega) hi'
+        subst hcs
+        refine ⟨.sat, c0, ha, fun rest alt ops => ?_⟩
+        have hrun := SatSpec.frag_multi (ke := ke) (ctx := .segwitv0) hE htap k ks hn hkn sigs (by omega)
+          (c0 ++ rest) (b := true) (by rw [multisigLoop_eq_mloop _ _ hkeys', hm]) (Or.inl rfl)
+        obtain ⟨c', hf, hst, halt⟩ := hrun alt ops
+        refine ⟨[1], c'.ops, ?_, Res.ofBool env true true⟩
+        rw [hctx]
+        have e : sigs ++ [] :: c0 ++ rest = sigs ++ [] :: (c0 ++ rest) := by simp
+        rw [e, hf]
+        cases c'
+        simp at hst halt
+        simp [hst, halt, boolBytes]
+
+/-! ### multi_a: CHECKSIG, then one CHECKSIGADD per further key, then `<k> NUMEQUAL` -/
+
+theorem seqOps_append (env : Env) (a b : List Op) (c : Core) :
+    seqOps env (a ++ b) c = seqOps env a c >>= seqOps env b := by
+  unfold seqOps; rw [List.foldlM_append]
+
+theorem seqOps_nil (env : Env) (c : Core) : seqOps env [] c = .ok c := rfl
+
+/-- one further key of `multi_a`: `<pk> CHECKSIGADD` on the running count -/
+theorem csa_step (h : NoLimits env) (htap : env.flags.tapscript = true) {m : Nat} (hm : m < 2 ^ 31)
+    {pk sg : Bytes} {b : Bool} (hchk : checkSig env sg pk = .ok b) (st alt : List Bytes) (ops : Nat) :
+    seqOps env [Op.push pk, .code .checksigadd] ⟨numEncode (m : Int) :: sg :: st, alt, ops⟩
+      = .ok ⟨numEncode ((m + (if b then 1 else 0) : Nat) : Int) :: st, alt, ops + 1⟩ := by
+  simp only [seqOps, List.foldlM_cons, List.foldlM_nil, pshOp, psh_nl h, bindOk, opc_nl h]
+  simp only [execOpc, htap, Bool.not_true, Bool.false_eq_true, if_false, num4_enc hm, bindOk, hchk,
+    pushElem_nl h, pureOk]
+  cases b <;> simp
+
+/-- the first key: `<pk> CHECKSIG` -/
+theorem cs_step (h : NoLimits env) {pk sg : Bytes} {b : Bool} (hchk : checkSig env sg pk = .ok b)
+    (st alt : List Bytes) (ops : Nat) :
+    seqOps env [Op.push pk, .code .checksig] ⟨sg :: st, alt, ops⟩
+      = .ok ⟨numEncode (((if b then 1 else 0) : Nat) : Int) :: st, alt, ops + 1⟩ := by
+  simp only [seqOps, List.foldlM_cons, List.foldlM_nil, pshOp, psh_nl h, bindOk, opc_nl h]
+  simp only [execOpc, hchk, bindOk, pushElem_nl h, pureOk]
+  cases b <;> simp [boolBytes] <;> decide
+
+/-- one key of `multi_a` on the interpreter side -/
+theorem evaluatePk_step (ag : Agree env ie) {pk : Bytes} (hk : pubkeyOk env pk = true) {c : List Bytes}
+    {st1 : AStack} {cs1 : List Constraint} (hp : evaluatePk ie pk (absS c) = .ok (st1, cs1)) :
+    ∃ sg c0 b, c = sg :: c0 ∧ st1 = (if b then Elem.sat else Elem.dissat) :: absS c0
+      ∧ checkSig env sg pk = .ok b ∧ (cs1 = [] ↔ b = false) := by
+  unfold evaluatePk at hp
+  obtain ⟨r, sg, c0, hc, ha, hres⟩ := evalSig_sound ag hk hp
+  subst hc
+  rcases hres.bool with e | e
+  · subst e
+    refine ⟨sg, c0, true, rfl, ha, hres.sat rfl, ?_⟩
+    -- the accepted signature is reported
+    cases hsg : Elem.ofBytes sg with
+    | sat => simp [evalSig, hsg] at hp
+    | dissat => simp [evalSig, hsg] at hp; simp [ha] at hp
+    | push x =>
+      simp only [absS_cons, hsg, evalSig] at hp
+      split at hp
+      · simp at hp; simp [← hp.2]
+      · simp at hp
+  · subst e
+    refine ⟨sg, c0, false, rfl, ha, hres.dis rfl, ?_⟩
+    cases hsg : Elem.ofBytes sg with
+    | sat => simp [evalSig, hsg] at hp
+    | dissat => simp [evalSig, hsg] at hp; simp [← hp.2]
+    | push x =>
+      simp only [absS_cons, hsg, evalSig] at hp
+      split at hp
+      · simp at hp; simp [ha] at hp
+      · simp at hp
+
+theorem multiA_rest (h : NoLimits env) (ag : Agree env ie) (htap : env.flags.tapscript = true) {k : Nat} :
+    ∀ (ks : List Key) (nSat : Nat) (c : List Bytes) (a' : AStack) (cs : List Constraint),
+      (∀ key ∈ ks, pubkeyOk env (ke.ser key) = true) →
+      Interp.multiALoop ie k (ks.map ke.ser) nSat (absS c) = .ok (a', cs) →
+      ∃ c0 nT, a' = (if nT = k then Elem.sat else Elem.dissat) :: absS c0 ∧ nT ≤ nSat + ks.length ∧
+        ∀ rest alt ops, nSat + ks.length < 2 ^ 31 → ∃ ops',
+          seqOps env (ks.flatMap (fun pk => [Op.push (ke.ser pk), .code .checksigadd]))
+              ⟨numEncode (nSat : Int) :: (c ++ rest), alt, ops⟩
+            = .ok ⟨numEncode (nT : Int) :: (c0 ++ rest), alt, ops'⟩
+  | [], nSat, c, a', cs, _, hi => by
+    simp [Interp.multiALoop] at hi
+    exact ⟨c, nSat, hi.1.symm, by simp, fun rest alt ops _ => ⟨ops, by simp [seqOps_nil]⟩⟩
+  | key :: ks, nSat, c, a', cs, hkeys, hi => by
+    simp only [List.map_cons] at hi
+    unfold Interp.multiALoop at hi
+    cases hp : evaluatePk ie (ke.ser key) (absS c) with
+    | error er => simp [hp] at hi
+    | ok p =>
+      obtain ⟨st1, cs1⟩ := p
+      obtain ⟨sg, c1, b, hc, hst1, hchk, hcs⟩ := evaluatePk_step ag (hkeys key (by simp)) hp
+      subst hc; subst hst1
+      have hkeys' : ∀ key ∈ ks, pubkeyOk env (ke.ser key) = true := fun q hq => hkeys q (by simp [hq])
+      -- whatever the count becomes, the rest of the loop runs on `c1`
+      have fin : ∀ (n1 : Nat) (a2 : AStack) (cs2 : List Constraint), n1 = nSat + (if b then 1 else 0) →
+          Interp.multiALoop ie k (ks.map ke.ser) n1 (absS c1) = .ok (a2, cs2) → a2 = a' →
+          ∃ c0 nT, a' = (if nT = k then Elem.sat else Elem.dissat) :: absS c0 ∧ nT ≤ nSat + (key :: ks).length ∧
+            ∀ rest alt ops, nSat + (key :: ks).length < 2 ^ 31 → ∃ ops',
+              seqOps env ((key :: ks).flatMap (fun pk => [Op.push (ke.ser pk), .code .checksigadd]))
+                  ⟨numEncode (nSat : Int) :: ((sg :: c1) ++ rest), alt, ops⟩
+                = .ok ⟨numEncode (nT : Int) :: (c0 ++ rest), alt, ops'⟩ := by
+        intro n1 a2 cs2 hn1 hr ha2
+        obtain ⟨c0, nT, ha, hle, F⟩ := multiA_rest h ag htap ks n1 c1 a2 cs2 hkeys' hr
+        rw [ha2] at ha
+        have hb1 : n1 ≤ nSat + 1 := by subst hn1; cases b <;> simp
+        refine ⟨c0, nT, ha, by simp only [List.length_cons]; omega, fun rest alt ops hb => ?_⟩
+        simp only [List.length_cons] at hb
+        obtain ⟨o, hf⟩ := F rest alt (ops + 1) (by omega)
+        refine ⟨o, ?_⟩
+        rw [List.flatMap_cons, seqOps_append, List.cons_append,
+          csa_step h htap (show nSat < 2 ^ 31 by omega) hchk (c1 ++ rest) alt ops, bindOk, ← hn1]
+        exact hf
+      cases b with
+      | false =>
+        have hcs1 : cs1 = [] := hcs.mpr rfl
+        subst hcs1
+        simp only [hp] at hi
+        exact fin nSat a' cs (by simp) (by simpa using hi) rfl
+      | true =>
+        have hne : cs1 ≠ [] := fun e => by have := hcs.mp e; simp at this
+        cases cs1 with
+        | nil => exact absurd rfl hne
+        | cons c1' cr =>
+          simp only [hp] at hi
+          cases hr : Interp.multiALoop ie k (ks.map ke.ser) (nSat + 1) (absS c1) with
+          | error er => simp [hr] at hi
+          | ok q =>
+            obtain ⟨a2, cs2⟩ := q
+            simp [hr] at hi
+            exact fin (nSat + 1) a2 cs2 (by simp) hr hi.1
+
+/-- `<k> NUMEQUAL` on the count -/
+theorem multiA_tail (h : NoLimits env) {k m : Nat} (hk : k < 2 ^ 31) (hm : m < 2 ^ 31)
+    (st alt : List Bytes) (ops : Nat) :
+    seqOps env [pushInt k, .code .numequal] ⟨numEncode (m : Int) :: st, alt, ops⟩
+      = .ok ⟨boolBytes (decide (m = k)) :: st, alt, ops + 1⟩ := by
+  simp only [seqOps, List.foldlM_cons, List.foldlM_nil, pshOp_pushInt h, bindOk, lockVal_eq]
+  simp only [pshOp, opc_nl h, execOpc, num4_enc hk, num4_enc hm, bindOk, pushElem_nl h, pureOk]
+  by_cases hmk : m = k
+  · subst hmk; simp
+  · have : ¬ ((k : Int) = (m : Int)) := by omega
+    rw [beq_eq_false_iff_ne.mpr this]; simp [hmk]
+
+theorem sound_multiA (h : NoLimits env) (ag : Agree env ie) {k : Nat} {ks : List Key}
+    (hs : Sup env ke (.multiA k ks)) {c : List Bytes} {a' : AStack} {cs : List Constraint}
+    (hi : interp ke ie (.multiA k ks) (absS c) = .ok (a', cs)) :
+    Post env ke ctx (.multiA k ks) .B true c a' := by
+  obtain ⟨htap, hk, hlen, hne, hkeys⟩ := hs
+  simp only [interp] at hi
+  cases ks with
+  | nil => exact absurd rfl hne
+  | cons key ks =>
+    simp only [List.map_cons] at hi
+    unfold Interp.multiALoop at hi
+    cases hp : evaluatePk ie (ke.ser key) (absS c) with
+    | error er => simp [hp] at hi
+    | ok p =>
+      obtain ⟨st1, cs1⟩ := p
+      obtain ⟨sg, c1, b, hc, hst1, hchk, hcs⟩ := evaluatePk_step ag (hkeys key (by simp)) hp
+      subst hc; subst hst1
+      have hkeys' : ∀ key ∈ ks, pubkeyOk env (ke.ser key) = true := fun q hq => hkeys q (by simp [hq])
+      simp only [List.length_cons] at hlen
+      have main : ∀ (n1 : Nat) (a2 : AStack) (cs2 : List Constraint), n1 = (if b then 1 else 0) →
+          Interp.multiALoop ie k (ks.map ke.ser) n1 (absS c1) = .ok (a2, cs2) → a2 = a' →
+          Post env ke ctx (.multiA k (key :: ks)) .B true (sg :: c1) a' := by
+        intro n1 a2 cs2 hn1 hr ha2
+        obtain ⟨c0, nT, ha, hle, F⟩ := multiA_rest (ke := ke) h ag htap ks n1 c1 a2 cs2 hkeys' hr
+        rw [ha2] at ha
+        have hb1 : n1 ≤ 1 := by subst hn1; cases b <;> simp
+        have ha' : a' = (if decide (nT = k) then Elem.sat else Elem.dissat) :: absS c0 := by simpa using ha
+        refine ⟨_, c0, ha', fun rest alt ops => ?_⟩
+        obtain ⟨o, hf⟩ := F rest alt (ops + 1) (by omega)
+        refine ⟨boolBytes (decide (nT = k)), o + 1, ?_, Res.ofBool env true _⟩
+        rw [frag]
+        simp only [encodeMultiA]
+        rw [List.append_assoc, seqOps_append]
+        simp only [List.cons_append, List.nil_append]
+        rw [cs_step h hchk (c1 ++ rest) alt ops, bindOk, ← hn1, seqOps_append, hf, bindOk]
+        exact multiA_tail h hk (by omega) (c0 ++ rest) alt o
+      cases b with
+      | false =>
+        have hcs1 : cs1 = [] := hcs.mpr rfl
+        subst hcs1
+        simp only [hp] at hi
+        exact main 0 a' cs rfl (by simpa using hi) rfl
+      | true =>
+        have hne' : cs1 ≠ [] := fun e => by have := hcs.mp e; simp at this
+        cases cs1 with
+        | nil => exact absurd rfl hne'
+        | cons c1' cr =>
+          simp only [hp] at hi
+          cases hr : Interp.multiALoop ie k (ks.map ke.ser) (0 + 1) (absS c1) with
+          | error er => simp [hr] at hi
+          | ok q =>
+            obtain ⟨a2, cs2⟩ := q
+            simp [hr] at hi
+            exact main 1 a2 cs2 rfl (by simpa using hr) hi.1
+
+/-- `interpRest` adds at most one per child to the counter -/
+theorem interpRest_count : (xs : MsList) → ∀ (n : Nat) (st st' : AStack) (n' : Nat) (cs : List Constraint),
+    interpRest ke ie xs n st = .ok (st', n', cs) → n' ≤ n + xs.length
+  | .nil, n, st, st', n', cs, hi => by simp [interpRest] at hi; omega
+  | .cons x xs, n, st, st', n', cs, hi => by
+    cases st with
+    | nil => simp [interpRest] at hi
+    | cons r st0 =>
+      cases r with
+      | push b => simp [interpRest] at hi
+      | sat =>
+        obtain ⟨st1, cs1, cs2, _, hrest⟩ := interpRest_cons_inv (Or.inl rfl) hi
+        have := interpRest_count xs _ st1 st' n' cs2 hrest
+        simp [bitOf, MsList.length] at this ⊢; omega
+      | dissat =>
+        obtain ⟨st1, cs1, cs2, _, hrest⟩ := interpRest_cons_inv (Or.inr rfl) hi
+        have := interpRest_count xs _ st1 st' n' cs2 hrest
+        simp [bitOf, MsList.length] at this ⊢; omega
+
 /-! ### the simulation, by recursion on the AST -/
 
+mutual
 theorem sound (h : NoLimits env) (ag : Agree env ie) :
     (ms : Ms) → (ty : Ty) → typeOf ms = some ty → Sup env ke ms →
     ∀ (c : List Bytes) (a' : AStack) (cs : List Constraint), interp ke ie ms (absS c) = .ok (a', cs) →
@@ -743,13 +1419,135 @@ theorem sound (h : NoLimits env) (ag : Agree env ie) :
         (fun c1 a2 cs2 hz => by
           have := sound h ag z tz htz hs.2.2 c1 a2 cs2 hz
           rw [hbz] at this; exact this.mono (fun q => (hu q).2))
+  | .swap x, ty, hty, hs, c, a', cs, hi => by
+    obtain ⟨tx, htx, hbx, hin, hb, hu⟩ := typeOf_swap hty
+    have P := sound h ag x tx htx hs.1 c a' cs (by simpa [interp] using hi)
+    rw [hbx] at P; rw [hb, hu]
+    have hc := TypeSound.args_cons (env := env) h.st ke ctx x hs.2 tx 1 htx
+      (by rcases hin with e | e <;> rw [e] <;> rfl)
+    rw [hbx] at hc
+    exact sound_swap h hc P
+  | .dupIf x, ty, hty, hs, c, a', cs, hi => by
+    obtain ⟨tx, htx, hbx, hin, hb, hu⟩ := typeOf_dupIf hty
+    have hc := TypeSound.args_cons (env := env) h.st ke ctx x hs.2 tx 0 htx (by rw [hin]; rfl)
+    rw [hbx] at hc
+    rw [hb, hu]
+    exact sound_dupIf h hc hi (fun c1 a2 cs2 hx => by
+      have := sound h ag x tx htx hs.1 c1 a2 cs2 hx
+      rw [hbx] at this
+      cases hux : tx.corr.unit <;> simpa [Post, hux] using this)
   | .nonZero _, _, _, hs, _, _, _, _ => hs.elim
-  | .swap _, _, _, hs, _, _, _, _ => hs.elim
-  | .dupIf _, _, _, hs, _, _, _, _ => hs.elim
-  | .thresh _ _, _, _, hs, _, _, _, _ => hs.elim
-  | .multi _ _, _, _, hs, _, _, _, _ => hs.elim
+  | .thresh k xs, ty, hty, hs, c, a', cs, hi => by
+    obtain ⟨ts, n, hts, hloop, hb, hu⟩ := typeOf_thresh hty
+    rw [hb, hu]
+    obtain ⟨hk1, hk, hlen, hsl⟩ := hs
+    cases xs with
+    | nil => simp [interp] at hi
+    | cons x xs' =>
+      obtain ⟨t, ts', htx, hts', hcons⟩ := typesOf_cons hts
+      subst hcons
+      simp only [List.map_cons] at hloop
+      obtain ⟨hB, _, hunit, hloop'⟩ := threshLoop_cons hloop
+      simp only [interp] at hi
+      cases hx : interp ke ie x (absS c) with
+      | error er => simp [hx] at hi
+      | ok p =>
+        obtain ⟨st1, cs1⟩ := p
+        have P1 := sound h ag x t htx hsl.1 c st1 cs1 hx
+        rw [hB rfl, hunit] at P1
+        obtain ⟨r1, c1, hst1, F1⟩ := P1
+        subst hst1
+        have hr1b : r1 = .sat ∨ r1 = .dissat := by obtain ⟨_, _, _, hr⟩ := F1 [] [] 0; exact hr.bool
+        cases hrest : interpRest ke ie xs' 0 (r1 :: absS c1) with
+        | error er => simp [hx, hrest] at hi
+        | ok q =>
+          obtain ⟨st2, nS', cs2⟩ := q
+          obtain ⟨rL, cL, hst2, hrLb, G⟩ := soundRest h ag xs' ts' hts' 1 _ n (by omega) hloop' hsl.2
+            c1 r1 0 st2 nS' cs2 hr1b hrest
+          subst hst2
+          simp only [hx, hrest] at hi
+          have hfin : (if nS' + bitOf rL = k then Elem.sat else Elem.dissat) :: absS cL = a' := by
+            rcases hrLb with e | e <;> subst e <;> simp [bitOf] at hi ⊢
+            · rw [← hi.1]
+              by_cases hh : nS' = k - 1
+              · have : nS' + 1 = k := by omega
+                simp only [if_pos hh, if_pos this]
+              · have : ¬ (nS' + 1 = k) := by omega
+                simp only [if_neg hh, if_neg this]
+            · rw [← hi.1]
+          refine ⟨_, cL, hfin.symm, fun rest alt ops => ?_⟩
+          obtain ⟨v1, o1, hf1, hres1⟩ := F1 rest alt ops
+          have hv1 := hres1.enc
+          have hlen' : xs'.length + 1 < 2 ^ 31 := by simpa [MsList.length] using hlen
+          have hb1 := bitOf_le r1
+          obtain ⟨o2, hf2⟩ := G rest alt o1 (by omega)
+          have hbL := bitOf_le rL
+          have hmT : nS' + bitOf rL < 2 ^ 31 := by
+            -- the sum never exceeds the number of children
+            have := interpRest_count (ke := ke) (ie := ie) xs' 0 (r1 :: absS c1) (rL :: absS cL) nS' cs2 hrest
+            omega
+          refine ⟨boolBytes (decide (nS' + bitOf rL = k)), o2 + 1, ?_, ?_⟩
+          · rw [hv1] at hf1
+            simp only [Nat.zero_add] at hf2
+            simp only [frag, fragThresh, hf1, bindOk, hf2]
+            simpa using thresh_tail h hk hmT (cL ++ rest) alt o2
+          · have := Res.ofBool env true (decide (nS' + bitOf rL = k))
+            simpa using this
+  | .multi k ks, ty, hty, hs, c, a', cs, hi => by
+    obtain ⟨hb, hu⟩ := typeOf_multi hty; rw [hb, hu]; exact sound_multi h ag hs hi
   | .sortedMulti _ _, _, _, hs, _, _, _, _ => hs.elim
-  | .multiA _ _, _, _, hs, _, _, _, _ => hs.elim
+  | .multiA k ks, ty, hty, hs, c, a', cs, hi => by
+    obtain ⟨hb, hu⟩ := typeOf_multiA hty; rw [hb, hu]; exact sound_multiA h ag hs hi
   | .sortedMultiA _ _, _, _, hs, _, _, _, _ => hs.elim
+/-- children 2…n of `thresh`: each runs as a `W` fragment on the accumulated sum and is added -/
+theorem soundRest (h : NoLimits env) (ag : Agree env ie) :
+    (xs : MsList) → (ts : List Ty) → typesOf xs = some ts →
+    ∀ (i acc n : Nat), i ≠ 0 → Corr.threshLoop i acc (ts.map (·.corr)) = some n → SupList env ke xs →
+    ∀ (cPrev : List Bytes) (rPrev : Elem) (nS : Nat) (st' : AStack) (nS' : Nat) (cs : List Constraint),
+      (rPrev = .sat ∨ rPrev = .dissat) →
+      interpRest ke ie xs nS (rPrev :: absS cPrev) = .ok (st', nS', cs) →
+      ∃ rL cL, st' = rL :: absS cL ∧ (rL = .sat ∨ rL = .dissat) ∧
+        ∀ rest alt ops, nS + bitOf rPrev + xs.length < 2 ^ 31 →
+          ∃ ops', fragThresh env ke ctx false xs
+              ⟨numEncode ((nS + bitOf rPrev : Nat) : Int) :: (cPrev ++ rest), alt, ops⟩
+            = .ok ⟨numEncode ((nS' + bitOf rL : Nat) : Int) :: (cL ++ rest), alt, ops'⟩
+  | .nil, ts, _, i, acc, n, _, _, _, cPrev, rPrev, nS, st', nS', cs, hrp, hi => by
+    simp [interpRest] at hi
+    obtain ⟨e1, e2, _⟩ := hi
+    subst e1; subst e2
+    exact ⟨rPrev, cPrev, rfl, hrp, fun rest alt ops _ => ⟨ops, by simp [fragThresh]⟩⟩
+  | .cons x xs, ts, hts, i, acc, n, hi0, hloop, hsl, cPrev, rPrev, nS, st', nS', cs, hrp, hi => by
+    obtain ⟨t, ts', htx, hts', hcons⟩ := typesOf_cons hts
+    subst hcons
+    simp only [List.map_cons] at hloop
+    obtain ⟨_, hW, hunit, hloop'⟩ := threshLoop_cons hloop
+    obtain ⟨st1, cs1, cs2, hx, hrest⟩ := interpRest_cons_inv hrp hi
+    have P1 := sound h ag x t htx hsl.1 cPrev st1 cs1 hx
+    rw [hW hi0, hunit] at P1
+    obtain ⟨r1, c1, hst1, F1⟩ := P1
+    subst hst1
+    have hr1b : r1 = .sat ∨ r1 = .dissat := by obtain ⟨_, _, _, hr⟩ := F1 [] [] [] 0; exact hr.bool
+    obtain ⟨rL, cL, hst', hrLb, G⟩ := soundRest h ag xs ts' hts' (i + 1) _ n (by omega) hloop' hsl.2
+      c1 r1 (nS + bitOf rPrev) st' nS' cs2 hr1b hrest
+    refine ⟨rL, cL, hst', hrLb, fun rest alt ops hbound => ?_⟩
+    have hlen : (MsList.cons x xs).length = xs.length + 1 := by simp [MsList.length]
+    rw [hlen] at hbound
+    have hb1 := bitOf_le r1
+    obtain ⟨v, o1, hf1, hres1⟩ := F1 (numEncode ((nS + bitOf rPrev : Nat) : Int)) rest alt ops
+    have hv := hres1.enc
+    subst hv
+    obtain ⟨o2, hf2⟩ := G rest alt (o1 + 1) (by omega)
+    refine ⟨o2, ?_⟩
+    rcases hf1 with hf1 | hf1
+    · have hadd := add_exec h (a := nS + bitOf rPrev) (b := bitOf r1) (by omega) (by omega) (c1 ++ rest) alt o1
+      have e : bitOf r1 + (nS + bitOf rPrev) = nS + bitOf rPrev + bitOf r1 := by omega
+      rw [e] at hadd
+      simp only [fragThresh, hf1, bindOk, hadd]
+      simpa using hf2
+    · have hadd := add_exec h (a := bitOf r1) (b := nS + bitOf rPrev) (by omega) (by omega) (c1 ++ rest) alt o1
+      simp only [fragThresh, hf1, bindOk, hadd]
+      simpa using hf2
+end
+
 
 end MsVerif.InterpSound
